@@ -1,6 +1,8 @@
 package main
 
 import (
+	"go/token"
+	"go/ast"
 	"fmt"
 	"math/big"
 	"go/types"
@@ -60,6 +62,15 @@ func (fr *Frame) callFn(st *State, site ssa.Instruction, fn *ssa.Function, args 
 	}
 	full := fn.String()
 	if r, ok := fr.intrinsic(st, site, full, fn, args); ok {
+		if fr.top && fn.Pkg != nil && fn.Pkg.Pkg.Path() == "math/big" {
+			// modelled math/big calls are visible to cut anchors like any other call
+			for i, a := range args {
+				st.srcVar[fmt.Sprintf("callarg%d", i)] = a
+				st.srcAdr[fmt.Sprintf("callarg%d", i)] = false
+			}
+			fr.bindCallResultSig(st, r, fn.Signature)
+			fr.anchor(st, "call", fn.Name(), -1)
+		}
 		return r
 	}
 	key := v.funcKey(fn)
@@ -73,29 +84,29 @@ func (fr *Frame) callFn(st *State, site ssa.Instruction, fn *ssa.Function, args 
 	// methods of abstract (ring-element) types are interpreted by their ring meaning
 	if r, ok := fr.bigCall(st, fn, args); ok {
 		if fr.top {
-			fr.bindCallResult(st, r)
+			fr.bindCallResultSig(st, r, fn.Signature)
 			fr.anchor(st, "call", fn.Name(), -1)
 		}
 		return r
 	}
 	if r, ok := fr.ringCall(st, fn, args); ok {
 		if fr.top {
-			fr.bindCallResult(st, r)
+			fr.bindCallResultSig(st, r, fn.Signature)
 			fr.anchor(st, "call", fn.Name(), -1)
 		}
 		return r
 	}
 	if c := v.lookupContract(fn); c != nil && c.Options["inline"] == "" && !(fr.top && fr.fn == fn) && !v.opaqueNames[fn.Name()] {
 		sameLayer := v.layerKeyOf(fn.Pkg, c) == v.curLayerKey
-		if !sameLayer && c.Layer == "" && !v.sigMentionsAbstract(fn) {
-			// a contract over concrete types applies unchanged at an abstract layer when the callee's signature
-			// does not involve any of the layer's abstract types
+		if !sameLayer && v.layerCompatible(fn, c) {
+			// a contract stated at a smaller layer (fewer abstract types, same interpretation of the shared ones)
+			// applies unchanged when the callee's signature does not involve any of the additional abstract types
 			sameLayer = true
 		}
 		if sameLayer && len(c.Lets) == 0 {
 			res = fr.applyContract(st, site, c, fn, args)
 			if fr.top {
-				fr.bindCallResult(st, res)
+				fr.bindCallResultSig(st, res, fn.Signature)
 				fr.anchor(st, "call", fn.Name(), -1)
 			}
 			return res
@@ -104,7 +115,7 @@ func (fr *Frame) callFn(st *State, site ssa.Instruction, fn *ssa.Function, args 
 	if v.opaqueOK(fn) {
 		res = fr.opaqueCall(st, site, fn, args)
 		if fr.top {
-			fr.bindCallResult(st, res)
+			fr.bindCallResultSig(st, res, fn.Signature)
 			fr.anchor(st, "call", fn.Name(), -1)
 		}
 		return res
@@ -114,7 +125,7 @@ func (fr *Frame) callFn(st *State, site ssa.Instruction, fn *ssa.Function, args 
 	}
 	res = fr.inline(st, fn, args, bindings)
 	if fr.top {
-		fr.bindCallResult(st, res)
+		fr.bindCallResultSig(st, res, fn.Signature)
 		fr.anchor(st, "call", fn.Name(), -1)
 	}
 	return res
@@ -254,12 +265,40 @@ func (fr *Frame) applyContract(st *State, site ssa.Instruction, c *Contract, fn 
 	}
 	se2 := &SpecEnv{fr: fr, st: st, old: old, vars: vars, pkg: fn.Pkg, fn: fn, ghostLocal: map[string]*Term{}}
 	// ghost outputs of the callee (existential witnesses) become fresh variables
+	gsort := func(e *SpecExpr) *Sort {
+		if specIsBool(e) {
+			return SBool
+		}
+		return SInt
+	}
 	for _, g := range c.Ghosts {
-		se2.ghostLocal[g.Name] = F.Fresh("g!"+fn.Name()+"!"+g.Name, SInt)
+		se2.ghostLocal[g.Name] = F.Fresh("g!"+fn.Name()+"!"+g.Name, gsort(g.E))
 	}
 	for _, g := range c.GhostFinal {
 		if _, ok := se2.ghostLocal[g.Name]; !ok {
-			se2.ghostLocal[g.Name] = F.Fresh("g!"+fn.Name()+"!"+g.Name, SInt)
+			// a ghost-final that is a function of the parameters and results alone is its definition at the call
+			// site; one that mentions callee locals stays an existential witness
+			var def *Term
+			func() {
+				defer func() {
+					if r := recover(); r != nil {
+						if _, isU := r.(unsupported); !isU {
+							panic(r)
+						}
+						def = nil
+					}
+				}()
+				if specIsBool(g.E) {
+					def = se2.evalBool(g.E)
+				} else {
+					def = se2.evalTerm(g.E)
+				}
+			}()
+			if def != nil {
+				se2.ghostLocal[g.Name] = def
+			} else {
+				se2.ghostLocal[g.Name] = F.Fresh("g!"+fn.Name()+"!"+g.Name, gsort(g.E))
+			}
 		}
 	}
 	if fr.top {
@@ -412,6 +451,12 @@ func (fr *Frame) opaqueCall(st *State, site ssa.Instruction, fn *ssa.Function, a
 			// setter-style methods (no result, or the receiver returned for chaining) write their receiver;
 			// predicates and getters (any other result type) are assumed not to
 			setter := rs.Len() == 0 || (rs.Len() >= 1 && types.Identical(rs.At(0).Type(), r.Type()))
+			for _, pre := range []string{"Set", "Read", "Unmarshal", "From", "Decode", "Fill", "Reset", "set", "unsafe"} {
+				// decoders report (n, err) or err but still write their receiver
+				if strings.HasPrefix(fn.Name(), pre) {
+					setter = true
+				}
+			}
 			if pv, ok := args[0].(*PtrV); ok && pv.Obj != nil && setter {
 				if !v.pureCalls[fn.Name()] {
 					if cur := v.content0(st, pv.Obj); cur != nil {
@@ -445,6 +490,14 @@ func (fr *Frame) opaqueCall(st *State, site ssa.Instruction, fn *ssa.Function, a
 		t := rs.At(i).Type()
 		if _, ok := t.Underlying().(*types.Interface); ok {
 			return &IfaceV{V: v.F.Fresh("opq!"+fn.Name()+"!iface", mkSort("Iface"))}
+		}
+		if r := fn.Signature.Recv(); r != nil && i == 0 && len(args) > 0 {
+			if _, isPtr := r.Type().Underlying().(*types.Pointer); isPtr && types.Identical(t, r.Type()) {
+				// chaining convention of the library: a method whose first result has the type of its pointer
+				// receiver returns that receiver
+				v.assume("chaining convention: an opaque method whose first result has the type of its pointer receiver returns the receiver (" + fn.Name() + ")")
+				return args[0]
+			}
 		}
 		return v.symValue(fmt.Sprintf("opq!%s!%d_r%d", fn.Name(), v.fresh, i), t, false)
 	}
@@ -878,6 +931,23 @@ func (fr *Frame) runDeferred(st *State, dc *deferredCall) {
 }
 
 // bindCallResult makes the result of the call just made visible to cut annotations (callresult, callresult0, ...).
+// bindCallResultSig: as bindCallResult, with struct-typed results wrapped so that specifications can select fields
+func (fr *Frame) bindCallResultSig(st *State, res Value, sig *types.Signature) {
+	if sig != nil {
+		rs := sig.Results()
+		if rs.Len() == 1 {
+			res = wrapTyped(res, rs.At(0).Type())
+		} else if tv, ok := res.(*TupleV); ok && len(tv.Elems) == rs.Len() {
+			es := make([]Value, len(tv.Elems))
+			for i, e := range tv.Elems {
+				es[i] = wrapTyped(e, rs.At(i).Type())
+			}
+			res = &TupleV{es}
+		}
+	}
+	fr.bindCallResult(st, res)
+}
+
 func (fr *Frame) bindCallResult(st *State, res Value) {
 	st.srcVar["callresult"] = res
 	st.srcAdr["callresult"] = false
@@ -932,4 +1002,88 @@ func (v *Verifier) sigMentionsAbstract(fn *ssa.Function) bool {
 		}
 	}
 	return false
+}
+
+// layerCompatible: every abstract type of the callee contract's layer is abstract in the same way in the current
+// layer, and the callee's signature mentions none of the types that are abstract only in the current layer.
+func (v *Verifier) layerCompatible(fn *ssa.Function, c *Contract) bool {
+	callee := map[string]string{}
+	if c.Layer != "" {
+		f := strings.Fields(c.Layer)
+		kind := f[0]
+		for _, tn := range f {
+			if tn == "ring" || tn == "opaque" || tn == "bigint" {
+				kind = tn
+				continue
+			}
+			t := v.resolveType(fn.Pkg, tn)
+			if t == nil {
+				return false
+			}
+			k := kind
+			if kind == "opaque" {
+				k = "opaque:" + sanitize(strings.ReplaceAll(tn, ".", "_"))
+			}
+			callee[typeKey(t)] = k
+		}
+	}
+	for k, kind := range callee {
+		cur, ok := v.abstract[k]
+		if !ok {
+			return false
+		}
+		if cur != kind && !(strings.HasPrefix(cur, "opaque:") && strings.HasPrefix(kind, "opaque:")) {
+			return false
+		}
+	}
+	// types abstract only here must not occur in the callee's signature
+	saved := v.abstract
+	extra := map[string]string{}
+	for k, kind := range saved {
+		if _, ok := callee[k]; !ok {
+			extra[k] = kind
+		}
+	}
+	v.abstract = extra
+	m := v.sigMentionsAbstract(fn)
+	v.abstract = saved
+	return !m
+}
+
+// specIsBool: syntactic sort inference for ghost variables of an applied contract
+func specIsBool(e *SpecExpr) bool {
+	if e == nil {
+		return false
+	}
+	if len(e.Parts) > 1 {
+		return true
+	}
+	var isB func(x ast.Expr) bool
+	isB = func(x ast.Expr) bool {
+		switch t := x.(type) {
+		case *ast.ParenExpr:
+			return isB(t.X)
+		case *ast.Ident:
+			return t.Name == "true" || t.Name == "false"
+		case *ast.UnaryExpr:
+			return t.Op == token.NOT
+		case *ast.BinaryExpr:
+			switch t.Op {
+			case token.LAND, token.LOR, token.EQL, token.NEQ, token.LSS, token.LEQ, token.GTR, token.GEQ:
+				return true
+			}
+		case *ast.CallExpr:
+			if id, ok := t.Fun.(*ast.Ident); ok {
+				switch id.Name {
+				case "isnil", "same", "iszero", "fresh", "noescape", "forall", "exists", "hasroot", "lexlargest", "eqmod", "imp":
+					return true
+				}
+				if strings.HasPrefix(id.Name, "ufbool_") {
+					return true
+				}
+			}
+		}
+		return false
+	}
+	return isB(e.Parts[0])
 }
